@@ -25,6 +25,7 @@
 import Fbr.Lemmas.PtDirRefs
 import Fbr.Lemmas.PtDirBuf
 import Fbr.Lemmas.PtDirPseudo
+import Fbr.Lemmas.PtDirScanFail
 
 namespace Fbr.Thm.C16
 open Fbr.PtDir Fbr.Wire Fbr.Lemmas.PtDir
@@ -43,42 +44,85 @@ theorem listing_complete_once {H : Host} (wf : WF H.dir) (hq : H.eofQuirk = fals
     (hsteps : ∀ s ∈ steps, (∀ op ∈ s.noise, ∀ h ∈ W, op ≠ .releasedir h) ∧ (st.noOpendir = true ∨ s.h ∈ W))
     (hadq : Adequate H st 0 (real H.dir) steps) (hlen : (real H.dir).length < steps.length) :
     (walk H st 0 steps).flatten = (real H.dir).map view ∧ (walk H st 0 steps).getLast? = some [] := by
-  apply walk_complete wf hq W st.noOpendir steps st 0 H.dir inv rfl hW (Or.inl ⟨rfl, rfl⟩) _ hadq hlen
-  intro s hs
-  refine ⟨(hsteps s hs).1, (hsteps s hs).2, ?_⟩
-  intro c' rest' hp hfits
-  refine ⟨hfits, Or.inl ⟨?_, hseek c'⟩⟩
+  apply walk_complete wf hq W st.noOpendir steps st 0 H.dir inv rfl hW (Or.inl ⟨rfl, rfl⟩) hsteps _ hadq hlen
+  apply along_of_forall
+  intro s _ st' c' rest' hp hfits
+  refine ⟨hfits, fun _ => Or.inl ⟨?_, hseek c'⟩⟩
   rcases hp with ⟨h0, _⟩ | ⟨pre, e, hd, hc⟩
   · rw [h0]; exact Nat.zero_le _
   · rw [← hc]; exact hcookies e (by rw [hd]; simp)
 
-/-- **…also through the linear-scan fallback** (`_partial`): cookies may exceed i64::MAX and
-    `lseek64` may answer `EINVAL` for any cookie (NFS), so that requests go through the rewind-and-
-    scan path.  What is missing for full strength: the scan re-reads the directory from the start
-    with the *request's* size, so a buffer that holds the next entry but not some earlier, longer
-    record makes `getdents64` fail (`fallback_tiny_size_counterexample`); the extra hypothesis asks
-    every request buffer to hold every record of the directory (any buffer ≥ 280 bytes does). -/
-theorem listing_complete_once_fallback_partial {H : Host} (wf : WF H.dir) (hq : H.eofQuirk = false)
+/-- **…also through the linear-scan fallback**, at full strength: cookies may exceed i64::MAX
+    and `lseek64` may answer `EINVAL` for any cookie but 0 (NFS), so that requests whose cached
+    cookie does not hit go through the rewind-and-scan path.  The scan re-reads the directory from
+    the start with the *request's* size, up to the record the client resumes after; `ScanGuard`,
+    checked along the actual walk (`Along`), asks exactly that of each such request: the records up
+    to and including the one whose cookie is the resume offset — records this walk has already
+    delivered (or "." / "..") — fit the request's buffer.  Nothing is asked of requests that hit
+    the cached cookie or whose cookie `lseek64` takes, and nothing about records not yet
+    delivered beyond `Adequate` (the next entry fits).  The guard cannot be weakened:
+    `fallback_guard_necessary` shows that a request violating it fails with `EINVAL`
+    (`fallback_tiny_size_counterexample` is an instance).  Proved by induction over walks
+    (`walk_complete`). -/
+theorem listing_complete_once_fallback {H : Host} (wf : WF H.dir) (hq : H.eofQuirk = false)
+    (hseek : ∀ c, H.seekErr c = none ∨ H.seekErr c = some EINVAL) (hseek0 : H.seekErr 0 = none)
+    (W : List Nat) (st : St) (inv : Inv st) (hW : Open st W) (steps : List Step)
+    (hsteps : ∀ s ∈ steps, (∀ op ∈ s.noise, ∀ h ∈ W, op ≠ .releasedir h) ∧ (st.noOpendir = true ∨ s.h ∈ W))
+    (hguard : Along H (ScanGuard H) st 0 steps)
+    (hadq : Adequate H st 0 (real H.dir) steps) (hlen : (real H.dir).length < steps.length) :
+    (walk H st 0 steps).flatten = (real H.dir).map view ∧ (walk H st 0 steps).getLast? = some [] := by
+  apply walk_complete wf hq W st.noOpendir steps st 0 H.dir inv rfl hW (Or.inl ⟨rfl, rfl⟩) hsteps _ hadq hlen
+  refine along_mono H _ _ ?_ steps st 0 hguard
+  intro s st' c' hg rest' hp hfits
+  refine ⟨hfits, fun hhit => ?_⟩
+  by_cases h0 : c' = 0
+  · left; rw [h0]; exact ⟨Nat.zero_le _, hseek0⟩
+  · by_cases hle : c' ≤ I64_MAX
+    · rcases hseek c' with h | h
+      · exact Or.inl ⟨hle, h⟩
+      · exact Or.inr ⟨Or.inr h, h0, fun pre e hd hc => hg hhit (Or.inr h) pre e rest' hd hc⟩
+    · exact Or.inr ⟨Or.inl (by omega), h0, fun pre e hd hc => hg hhit (Or.inl (by omega)) pre e rest' hd hc⟩
+
+/-- a uniform sufficient condition for the guard (the earlier `_partial` hypothesis): every request
+    buffer holds every record of the directory (any buffer ≥ 280 bytes does) -/
+theorem listing_complete_once_fallback_big_buffers {H : Host} (wf : WF H.dir) (hq : H.eofQuirk = false)
     (hseek : ∀ c, H.seekErr c = none ∨ H.seekErr c = some EINVAL) (hseek0 : H.seekErr 0 = none)
     (W : List Nat) (st : St) (inv : Inv st) (hW : Open st W) (steps : List Step)
     (hsteps : ∀ s ∈ steps, (∀ op ∈ s.noise, ∀ h ∈ W, op ≠ .releasedir h) ∧ (st.noOpendir = true ∨ s.h ∈ W))
     (hbig : ∀ s ∈ steps, ∀ e ∈ H.dir, reclen e ≤ s.size)
     (hadq : Adequate H st 0 (real H.dir) steps) (hlen : (real H.dir).length < steps.length) :
     (walk H st 0 steps).flatten = (real H.dir).map view ∧ (walk H st 0 steps).getLast? = some [] := by
-  apply walk_complete wf hq W st.noOpendir steps st 0 H.dir inv rfl hW (Or.inl ⟨rfl, rfl⟩) _ hadq hlen
-  intro s hs
-  refine ⟨(hsteps s hs).1, (hsteps s hs).2, ?_⟩
-  intro c' rest' hp hfits
-  refine ⟨hfits, ?_⟩
-  by_cases h0 : c' = 0
-  · left; rw [h0]; exact ⟨Nat.zero_le _, hseek0⟩
-  · by_cases hle : c' ≤ I64_MAX
-    · rcases hseek c' with h | h
-      · exact Or.inl ⟨hle, h⟩
-      · exact Or.inr ⟨Or.inr h, h0, hbig s hs⟩
-    · exact Or.inr ⟨Or.inl (by omega), h0, hbig s hs⟩
+  apply listing_complete_once_fallback wf hq hseek hseek0 W st inv hW steps hsteps _ hadq hlen
+  apply along_of_forall
+  intro s hs st' c' _ _ pre e rest hd _ x hx
+  apply hbig s hs x
+  rw [hd]
+  rcases List.mem_append.mp hx with h | h
+  · exact List.mem_append_left _ h
+  · rw [List.mem_singleton.mp h]; simp
 
-/-- the defect of the fallback path that the `_partial` hypothesis excludes (model level; this
+/-- **the guard of the fallback is necessary**: a request that resumes after a record of the
+    directory and violates `ScanGuard` — the cached cookie does not hit, `lseek64` cannot take the
+    cookie, and some record up to and including that one does not fit the buffer — is answered
+    `EINVAL` (the scan's `getdents64` on that record fails), whatever the state. -/
+theorem fallback_guard_necessary {H : Host} (wf : WF H.dir) (hq : H.eofQuirk = false) (s : Step) (st : St) (c : Nat)
+    (hc : ∃ pre e rest, H.dir = pre ++ e :: rest ∧ e.cookie = c) (hsz : s.size ≠ 0)
+    (hh : st.noOpendir = true ∨ ∃ fd, st.fds s.h = some fd) (hg : ¬ ScanGuard H s st c) :
+    (readReq H st s.plus s.h s.size c none).2 = .error EINVAL := by
+  by_cases hmiss : hitOf st s.h c = false
+  · by_cases hbad : c > I64_MAX ∨ H.seekErr c = some EINVAL
+    · by_cases hun : ∃ pre e rest, H.dir = pre ++ e :: rest ∧ e.cookie = c ∧ ∃ x ∈ pre ++ [e], reclen x > s.size
+      · obtain ⟨pre, e, rest, hd, hce, hx⟩ := hun
+        exact readReq_scan_fails wf hq st s.plus s.h s.size c hd hce hsz hh hmiss hbad hx
+      · exfalso; apply hg
+        intro _ _ pre e rest hd hce x hx
+        by_cases hle : reclen x ≤ s.size
+        · exact hle
+        · exact absurd ⟨pre, e, rest, hd, hce, x, hx, by omega⟩ hun
+    · exfalso; apply hg; intro _ hb; exact absurd hb hbad
+  · exfalso; apply hg; intro hm; exact absurd hm hmiss
+
+/-- the defect of the fallback path that `ScanGuard` excludes (model level; this
     host has no cookie above i64::MAX, so it cannot be replayed here): a 60-byte name first, the
     client resumes after it from a cookie above i64::MAX with a 32-byte buffer that holds the next
     entry "b" — the scan's first `getdents64(32)` fails with EINVAL instead of delivering "b" -/
@@ -104,7 +148,7 @@ theorem resume_from_any_cookie {H : Host} (wf : WF H.dir) (hq : H.eofQuirk = fal
     ∃ (st' : St) (p : Dir), readReq H st plus h size c none = (st', .ok (p.map view)) ∧
       p <+: real rest ∧ (real rest ≠ [] → p ≠ []) ∧ Inv st' := by
   obtain ⟨st', p, hreq, hr⟩ := resume_step wf hq st inv plus h size c rest hp h24 hnext hh
-    (fun hfits => ⟨hfits, Or.inl hseek⟩)
+    (fun hfits => ⟨hfits, fun _ => Or.inl hseek⟩)
   exact ⟨st', p, hreq, hr.isPrefix, hr.progress, hr.kept.1⟩
 
 /-- what is delivered for a record: its name (NUL-trimmed = the name), its type, its cookie as a
@@ -151,7 +195,7 @@ theorem reply_within_size {H : Host} (wf : WF H.dir) (hq : H.eofQuirk = false) (
     ∃ (st' : St) (p : Dir), readReq H st plus h size c none = (st', .ok (p.map view)) ∧
       (p.map (fun e => fuseLen plus (view e).name.length)).sum ≤ size := by
   obtain ⟨st', p, hreq, hr⟩ := resume_step wf hq st inv plus h size c rest hp h24 hnext hh
-    (fun hfits => ⟨hfits, Or.inl hseek⟩)
+    (fun hfits => ⟨hfits, fun _ => Or.inl hseek⟩)
   exact ⟨st', p, hreq, hr.within⟩
 
 /-- **READDIRPLUS references = delivered entries** under the server's accounting: one lookup
@@ -164,7 +208,7 @@ theorem plus_refs_equal_delivered {H : Host} (wf : WF H.dir) (hq : H.eofQuirk = 
     ∃ (st' : St) (p : Dir), readReq H st plus h size c none = (st', .ok (p.map view)) ∧
       st'.refs = (if plus then (p.map (·.ino)).reverse ++ st.refs else st.refs) := by
   obtain ⟨st', p, hreq, hr⟩ := resume_step wf hq st inv plus h size c rest hp h24 hnext hh
-    (fun hfits => ⟨hfits, Or.inl hseek⟩)
+    (fun hfits => ⟨hfits, fun _ => Or.inl hseek⟩)
   exact ⟨st', p, hreq, hr.refs⟩
 
 /-- **…and for an arbitrary callback**: whatever `add_entry` answers for each offer — a count,
@@ -272,6 +316,40 @@ example : Adequate exHost (opendir {}).1 0 (real exDir) exSteps :=
 set_option maxRecDepth 100000 in
 example : (walk exHost (opendir {}).1 0 exSteps).map (·.map (·.name)) =
     [[[120, 121]], [[46, 97]], [List.replicate 30 98], []] := by
+  rfl
+
+/-- the fallback theorem is not vacuous: the first record's cookie is above i64::MAX, the walker
+    gets it with a 32-byte buffer, another request on the same handle moves the descriptor and drops
+    the cached cookie, and the walker resumes with an 88-byte buffer — through the linear scan
+    (the first buffer could not hold the second record: the earlier `_partial` hypothesis fails) -/
+def fbDir : Dir :=
+  [ { ino := 2, cookie := 2 ^ 63 + 5, type := 8, name := [98] },
+    { ino := 1, cookie := 77, type := 8, name := List.replicate 60 97 } ]
+
+def fbHost : Host := { dir := fbDir }
+
+def fbSteps : List Step :=
+  [ { noise := [.opendir], plus := false, h := 1, size := 32 },
+    { noise := [.read false 1 4096 0 none], plus := false, h := 1, size := 88 },
+    { noise := [], plus := false, h := 1, size := 88 } ]
+
+example : WF fbDir := ⟨by decide, by decide, by decide⟩
+
+set_option maxRecDepth 100000 in
+example : Along fbHost (ScanGuard fbHost) (opendir {}).1 0 fbSteps :=
+  along_of_bool _ _ _ (scanGuard_of_bool fbHost rfl) _ _ _ (by rfl)
+
+set_option maxRecDepth 100000 in
+example : Adequate fbHost (opendir {}).1 0 (real fbDir) fbSteps :=
+  adequate_of_bool _ _ _ _ _ (by rfl)
+
+/-- the second request really takes the scan: no cache hit, cookie above i64::MAX -/
+example : hitOf (applyOps fbHost (readReq fbHost (applyOps fbHost (opendir {}).1 [.opendir]) false 1 32 0 none).1
+    [.read false 1 4096 0 none]) 1 (2 ^ 63 + 5) = false ∧ 2 ^ 63 + 5 > I64_MAX := by
+  refine ⟨by rfl, by decide⟩
+
+set_option maxRecDepth 100000 in
+example : (walk fbHost (opendir {}).1 0 fbSteps).map (·.map (·.name)) = [[[98]], [List.replicate 60 97], []] := by
   rfl
 
 end Fbr.Thm.C16
